@@ -46,12 +46,13 @@ def isqrtAux : Nat → Nat → Nat → Nat
 def isqrt (n : Nat) : Nat := isqrtAux 32 0 n
 
 /-- `(x as f64).sqrt() as uN` for an integer `x`.
-The conversion `x as f64` is exact below 2^53; IEEE-754 `sqrt` is correctly rounded; for
-`x < 2^53` the rounded root cannot reach the next integer unless `x` is a perfect square
-(`√x ≤ r + 1 - 1/(2r+2)` for `r = ⌊√x⌋ < 2^27`, while half an ulp at `r + 1 ≤ 2^27` is at most `2^-27`...
-for the arguments that occur, `x ≤ 256·1064 < 2^19`, the margin is more than ten orders of
-magnitude), and the `as` cast truncates, so the result is `⌊√x⌋`.  Values ≥ 2^53 are refused.
-The equality with the real code is checked for every size by the correspondence run. -/
+`x as f64` is exact below 2^53 and IEEE-754 `sqrt` is correctly rounded.  Let `r = ⌊√x⌋`.  If `x`
+is a perfect square the result is exactly `r`.  Otherwise `√x ≤ √((r+1)² - 1) < r + 1 - 1/(2r+2)`,
+while the spacing of doubles just below `r + 1 ≤ 2^27` is at most `2^-26`; rounding `√x` up to
+`r + 1` would need `1/(2r+2) ≤ 2^-27`, i.e. `r + 1 ≥ 2^26`, i.e. `x ≥ 2^52 - 2^27`.  The arguments
+that occur are `256·(bits + 40) < 2^18` (a margin of more than ten orders of magnitude), and the
+`as uN` cast truncates, so the value is `⌊√x⌋ = isqrt x` (`isqrt_spec`).  Arguments `≥ 2^53` are
+refused.  The equality with the real code is checked for every size by the correspondence run. -/
 def csqrtF64 (x : Nat) : Option Nat := if x < 2 ^ 53 then some (isqrt x) else none
 
 /-- square-and-multiply `a^e mod m`, `e < 2^fuel` (spec: `Ymq.Checked.powmod_eq`). -/
